@@ -5,6 +5,8 @@ CONSTANTS
   MaxFrames = 3
   SendLens = {}
   AllowToggle = FALSE
+  MaxLoss = 0
+  ResetOnDisconnect = TRUE
 VIEW View
 
 
